@@ -5,12 +5,14 @@
    case (3 o names)            -> (0 (x)?)                         : pop_site (sigma_rank o)
    case (4 items)              -> (0 globals funs setup loop ok)   : transl_fixed sigma_rank   (the candidate repair)
    case (5 o construct)        -> (0 decls guard)                  : promote_fixed (sigma_rank o)
+   case (6 progs)              -> (0 ((0 ((y e t)...)) | (1))...)  : map transl_dev  (device-registry sessions)
+   dstmt: (0 x kind) | (1 y x meth)    kind: 0 Servo 1 Pot 2 Serial 3 Ultra 4 Button 5 Led   meth: 0 read 1 read_us 2 measure 3 pressed 4 state 5 bright
    stmt:  (0 x t) | (1 o (body...)) if | (2 o body) while | (3 o v body) for | (4 o (body...)) try
    item:  (0 stmt) | (1 f body) | (2 body)
    construct: (0 parent ((x t)...)...) | (1 body_decls ((x t)...))
    node:  (0 x t) decl | (1 x) assign | (2 (body...)) if | (3 body) while | (4 v body) for | (5 (body...)) try *)
 From Coq Require Import ZArith List Bool.
-From RV Require Import Base.Wire Base.Text Lang.Order.
+From RV Require Import Base.Wire Base.Text Lang.Order Lang.DevSession.
 Import ListNotations.
 Open Scope Z_scope.
 
@@ -117,6 +119,39 @@ Definition enc_out (r : prog_out) : wv :=
         WL (map (fun f => WL [wtext (fst f); enc_nodes (snd f)]) (o_funs r));
         enc_nodes (o_setup r); enc_nodes (o_loop r); wbool (o_ok r) ].
 
+Definition dec_dkind (z : Z) : option dkind :=
+  match z with 0 => Some DServo | 1 => Some DPot | 2 => Some DSerial | 3 => Some DUltra | 4 => Some DButton | 5 => Some DLed | _ => None end.
+
+Definition dec_meth (z : Z) : option meth :=
+  match z with 0 => Some MRead | 1 => Some MReadUs | 2 => Some MMeasure | 3 => Some MPressed | 4 => Some MState | 5 => Some MBright | _ => None end.
+
+Definition dec_dstmt (v : wv) : option dstmt :=
+  match v with
+  | WL [WI 0; x; WI k] => match un_text x, dec_dkind k with Some x, Some k => Some (DDev x k) | _, _ => None end
+  | WL [WI 1; y; x; WI m] =>
+      match un_text y, un_text x, dec_meth m with Some y, Some x, Some m => Some (DRead y x m) | _, _, _ => None end
+  | _ => None
+  end.
+
+Fixpoint dec_dstmts (l : list wv) : option (list dstmt) :=
+  match l with
+  | [] => Some []
+  | x :: r => match dec_dstmt x, dec_dstmts r with Some s, Some ss => Some (s :: ss) | _, _ => None end
+  end.
+
+Fixpoint dec_dprogs (l : list wv) : option (list (list dstmt)) :=
+  match l with
+  | [] => Some []
+  | WL p :: r => match dec_dstmts p, dec_dprogs r with Some s, Some ss => Some (s :: ss) | _, _ => None end
+  | _ => None
+  end.
+
+Definition enc_dout (o : option (list rdecl)) : wv :=
+  match o with
+  | Some ds => WL [WI 0; WL (map (fun d => WL [wtext (fst (fst d)); WI (snd (fst d)); WI (snd d)]) ds)]
+  | None => WL [WI 1]
+  end.
+
 Definition run (v : wv) : wv :=
   match v with
   | WL [WI 0; WL items] =>
@@ -148,6 +183,11 @@ Definition run (v : wv) : wv :=
       match un_tlist o, dec_construct c with
       | Some o, Some c => wok [WL (map enc_decl (promote_fixed (sigma_rank o) c)); wbool (guard c)]
       | _, _ => wbad
+      end
+  | WL [WI 6; WL progs] =>
+      match dec_dprogs progs with
+      | Some ps => wok [WL (map enc_dout (map transl_dev ps))]
+      | None => wbad
       end
   | _ => wbad
   end.
